@@ -163,6 +163,8 @@ impl Parser for Markdown {
 
         let mut traversed_bytes = 0;
         let mut traversed_chars = 0;
+        // Up to which byte the text of the document has been turned into tokens.
+        let mut lexed_until_byte = 0;
 
         let mut stack = Vec::new();
 
@@ -172,6 +174,25 @@ impl Parser for Markdown {
             if range.start > traversed_bytes {
                 traversed_chars += source_str[traversed_bytes..range.start].chars().count();
                 traversed_bytes = range.start;
+            }
+
+            // Behind a wikilink with an empty label (`[[Page|]]`) pulldown-cmark emits the rest of
+            // the block twice; a stretch of the document is tokenised once.
+            if matches!(
+                event,
+                pulldown_cmark::Event::Text(_)
+                    | pulldown_cmark::Event::Code(_)
+                    | pulldown_cmark::Event::InlineMath(_)
+                    | pulldown_cmark::Event::DisplayMath(_)
+                    | pulldown_cmark::Event::Html(_)
+                    | pulldown_cmark::Event::InlineHtml(_)
+                    | pulldown_cmark::Event::SoftBreak
+                    | pulldown_cmark::Event::HardBreak
+            ) {
+                if range.start < lexed_until_byte {
+                    continue;
+                }
+                lexed_until_byte = range.end;
             }
 
             match event {
